@@ -162,9 +162,16 @@ def codec_sqlite(prog, rep, rule="CODEC"):
             rep.check(ok, rule, s.fi.short, "SELECT columns vs decoder indices", f"{cols}", f"the SELECT lists {cols} but the decoder reads {idx}: columns are swapped or missing", s.loc(), expected=str(idx), found=str(cols))
         # rows go through the decoder
         used = any(isinstance(c, ast.Call) and norm(c.func) == "_rows_to_events" for c in walk_own(s.fi.node))
-        rep.check(used, rule, s.fi.short, "decoder used", "_rows_to_events(rows)", "rows are not decoded by _rows_to_events", s.loc())
+        factory = any(isinstance(x, ast.Attribute) and x.attr == "row_factory" for x in ast.walk(s.fi.node))
+        if not used and factory:
+            rep.undecided(rule, s.fi.short, "decoder used", "rows are converted by a sqlite3 row factory set on the cursor, which this analysis does not follow", s.loc())
+        else:
+            rep.check(used, rule, s.fi.short, "decoder used", "_rows_to_events(rows)", "rows are not decoded by _rows_to_events", s.loc())
     vals = {v for v in scales.values()}
-    rep.check(len(vals) == 1 and None not in vals, rule, "SqliteStorage", "one scale constant", f"scale {vals}", f"encode/decode scale constants differ: { {f'{k[0]}:{k[1]}': v for k, v in scales.items()} }", None, expected="one constant on every write and read", found=str(sorted(map(str, vals))))
+    if None in vals:
+        rep.undecided(rule, "SqliteStorage", "one scale constant", f"a scale constant could not be read off ({ {f'{k[0]}:{k[1]}': v for k, v in scales.items()} })")
+    else:
+        rep.check(len(vals) == 1, rule, "SqliteStorage", "one scale constant", f"scale {vals}", f"encode/decode scale constants differ: { {f'{k[0]}:{k[1]}': v for k, v in scales.items()} }", None, expected="one constant on every write and read", found=str(sorted(map(str, vals))))
     rep.extra["sqlite_scales"] = {f"{k[0]}:{k[1]}": v for k, v in scales.items()}
     return scales
 
